@@ -97,14 +97,18 @@ def cross_correlation_shift(
     cc = F_ref * xp.conj(F_im)
     cc_real = xp.real(xp.fft.ifft2(cc))
 
+    # the max_shift mask only restricts the search for the coarse peak: the parabolic refinement
+    # below reads the unmasked correlation (a zeroed neighbour would bias the vertex)
+    cc_search = cc_real
     if max_shift is not None:
         x = np.fft.fftfreq(cc.shape[0], 1 / cc.shape[0])
         y = np.fft.fftfreq(cc.shape[1], 1 / cc.shape[1])
         mask = x[:, None] ** 2 + y[None, :] ** 2 >= max_shift**2
-        cc_real[mask] = 0.0
+        cc_search = cc_real.copy()
+        cc_search[mask] = 0.0
 
     # Coarse peak
-    peak = xp.unravel_index(xp.argmax(cc_real), cc_real.shape)
+    peak = xp.unravel_index(xp.argmax(cc_search), cc_search.shape)
     x0, y0 = peak
 
     # Parabolic refinement
